@@ -6,6 +6,9 @@
 #define VERIF_FILE_EXISTS(path) verif_exists(path)
 #define VERIF_HM_MAX 4
 #define VERIF_PACKED_SPELLING 1
+// in cbmc mode exit() ends the path: "no diagnostic" must be asserted AT the exit
+static int expect_no_diag;
+#define VERIF_ON_EXIT(code) VASSERT(!expect_no_diag, "no diagnostic for a well-formed #include / search")
 #include "common.h"
 static bool verif_exists(char *path);
 #include "pp_env.h"
@@ -48,6 +51,7 @@ static void setup(void) {
   for (int d = 0; d <= NDIR; d++) for (int n = 0; n < 2; n++) __CPROVER_assume(IN.exists[d][n] <= 1);
   __CPROVER_assume(IN.name <= 1 && IN.name2 <= 1 && IN.is_dquote <= 1 && IN.again <= 1);
   include_paths.data = dirs; include_paths.len = NDIR; include_paths.capacity = NDIR;
+  expect_no_diag = 1;
 }
 
 // search_include_paths(n) = first directory in command-line order that has n; include_next_idx
@@ -119,8 +123,8 @@ static void run_include(bool dquote) {
   }
   mk(TK_EOF, "", 0, true, false);
   Token *out = NULL;
+  expect_no_diag = 1;
   TRY(out = preprocess2(first_tok));
-  VASSERT(!verif_diag, "no diagnostic for a well-formed #include");
   if (verif_diag) return;
   VASSERT(include_calls == 1, "exactly one file is included");
   int want = first_hit(0, n);
